@@ -39,7 +39,8 @@ def _case(draw, tier):
               # categorical probabilities also as a plain normalised tensor with EXACT zeros (one-hot rows)
               cat_kinds=["softmax", "logsoftmax-exp", "simplex0"])
     if sem == "lse-sum":
-        spec = draw(gen.sd_circuit(input_types=gen.NONNEG_INPUTS, nonneg=True, **kw))
+        spec = draw(gen.sd_circuit(input_types=gen.NONNEG_INPUTS, nonneg=True,
+                                   emb_kinds=gen.NONNEG_KINDS + ["plain0", "plain0"], **kw))
     elif sem == "sum-product":
         spec = draw(gen.sd_circuit(input_types=gen.ALL_INPUTS, **kw))
     else:
